@@ -918,6 +918,8 @@ class _Spline(_Algorithm2D):
                 new_baseline = pspline.solve(y, weight_array)
                 new_weights, exit_early = _weighting._brpls(y, new_baseline, beta)
                 if exit_early:
+                    if i == 0 and j == 0:  # output the fit baseline rather than the data
+                        baseline = new_baseline
                     j -= 1  # reduce j so that output tol_history indexing is correct
                     tol_2 = np.inf  # ensure it exits outer loop
                     break
